@@ -24,8 +24,8 @@ const SETUP: &[&str] = &[
     "gift user5 usei 1000000000",
     "gift user6 usei 1000000000",
     "inst_hub owner 30 100 5000000000000000 1000000000000000000 updater usei uusd",
-    "inst_reward owner hub uusd swap 2 uatom usei",
-    "inst_disp owner hub reward usei uusd keeper 50000000000000000 swap oracle 3 uatom usei uusd",
+    "inst_reward owner hub uusd swap 2 uAtom usei",
+    "inst_disp owner hub reward usei uusd keeper 50000000000000000 swap oracle 3 uAtom usei uusd",
     "inst_reg owner hub 3 val0 val1 val2",
     "inst_bsei owner hub 0",
     "inst_stsei owner hub 2 0",
